@@ -83,6 +83,11 @@ def run(ctx):
                detail="exit status is 0 only under the Ok arm, otherwise RedoErrorKind::exit_code()" if ok and calls_ec else "exit status 0 reachable outside the Ok arm or exit_code() unused")
 
     # ---- R5.2
+    # The *shared result* is the cell through which a finished job reports failure to the scheduler. It is known by
+    # what it is - a `Cell` whose content can carry a RedoError, written by the job wrappers, read by the scheduling
+    # passes, taken by the stream owner - not by its representation: `Cell<Result<(), RedoError>>` (failure = Err) and
+    # `Cell<Option<RedoError>>` (failure = Some) are the same mechanism, and so are set / replace / take on it whether
+    # written in place or inside small methods of a state struct (spliced in by canon).
     pushes = ba.calls(common.PUSH)
     wrappers = []
     for pb in pushes:
@@ -92,27 +97,36 @@ def run(ctx):
             if o[0] == "agg" and o[2].get("agg") in ("coroutine", "closure"):
                 wrappers.append((pb, prog.bodies[strip_generics(o[2]["def"])]))
     ctx.floor("R5.2", "job-wrapper coroutines pushed on the job-future stream", len(wrappers), 2)
+    O = anchors.stream_owner(prog)
+    oba = BA.of(O)
+    SR = SharedResult([S, O] + [w for (_, w) in wrappers])
+    ctx.ob("R5.2", "shared-result-cell", SR.known(), where=S.span,
+           detail="the shared result is a Cell<%s>; a failure is its %s variant" % (SR.elem, SR.fail) if SR.known() else
+           "no single Cell that can carry a RedoError is shared by the job wrappers and the scheduler (found: %s)" % sorted(SR.elems))
     for k, (pb, w) in common.ordinal_keys([("wrapper", x) for x in wrappers]):
         wba = BA.of(w)
         aw = wba.awaits()
-        sws = common.cmp_const_switches(w, 0)
+        # the edges on which the awaited job status is known to be zero: everything else is the non-zero side
         ok = False
         det = "no `status != 0` test after the await"
-        for (sw, ne_t, eq_t, x) in sws:
+        for (sw, ne_t, eq_t, x) in common.cmp_const_switches(w, 0):
             if not aw or aw[0][2] is None or not wba.dominates(aw[0][2], sw):
                 continue
-            sets = [i for i in wba.calls(r"core::cell::Cell::set") if common.agg_in_block(w, wba.b.pred(i)[0] if wba.b.pred(i) else i, r"core::result::Result", "Err") or
-                    any(common.agg_in_block(w, j, r"core::result::Result", "Err") for j in wba.dom[i])]
+            sets = [i for i in SR.ops(w, "set") if SR.stores(w, i) == "fail"]
             p = wba.path([ne_t], wba.returns(), avoid=frozenset(sets), incl=True)
             ok = bool(sets) and p is None
-            det = "non-zero side stores Err in the shared result on every path" if ok else "a non-zero job status can complete the wrapper without storing Err"
+            det = "non-zero side stores a failure in the shared result on every path" if ok else "a non-zero job status can complete the wrapper without storing a failure"
         ctx.ob("R5.2", "%s|%s|nonzero-stores-Err" % (S.key, k), ok, where=w.span, detail=det)
-    # final value of the scheduler derives from the shared result cell
-    O = anchors.stream_owner(prog)
-    oba = BA.of(O)
-    rets = [i for i in oba.calls(r"core::cell::Cell::replace") if O.blocks[i]["term"]["dest"]["l"] == 0]
+    # final value of the scheduler derives from the shared result cell: the value O returns (as a whole, or the error it
+    # wraps in Err) is what a read of the cell yielded, and every such read comes after the drain
+    rets = set()
+    for pend in ((), (("Err", "0"),)):
+        for kind, bb, t_ in common.value_origins(O, 0, pend=pend):
+            if kind in ("call", "callpay") and bb in SR.ops(O, "replace|take"):
+                rets.add(bb)
+    rets = sorted(rets)
     ctx.ob("R5.2", "%s|returns-shared-result" % O.key, len(rets) >= 1 and all(oba.dominates(d, r) for r in rets for d in common.drain_ready_blocks(O)),
-           where=ctx.where(O, rets[0]) if rets else O.span, detail="the scheduler's value is result.replace(..) taken after the drain" if rets else "the scheduler does not return the shared result")
+           where=ctx.where(O, rets[0]) if rets else O.span, detail="the scheduler's value is the shared result taken after the drain" if rets else "the scheduler does not return the shared result")
     # an error of the passes themselves is not swallowed: every other return of the owner after the passes is an Err/`?`
     if O.key != S.key:
         aw = [r for (p_, y, r, c) in oba.awaits() if c == S.key and r is not None]
@@ -127,21 +141,15 @@ def run(ctx):
                 ok = all(oba.dominates(d, br) for d in common.drain_ready_blocks(O))
         ctx.ob("R5.2", "%s|passes-error-propagated-after-drain" % O.key, ok, where=O.span,
                detail="the result of the scheduling passes is propagated with `?` after the drain" if ok else "an error of the scheduling passes is dropped or returned before the drain")
-    for k, i in common.ordinal_keys([("Cell::set", i) for i in ba.calls(r"core::cell::Cell::set")]):
-        t = S.blocks[i]["term"]
-        if "Result<(), error::RedoError>" not in t["arg_tys"][1]:
-            continue
-        sl, origins, _ = backward_direct(S, op_local(t["args"][1]))
-        is_err = any(o[0] == "agg" and o[2].get("variant") == "Err" for o in origins) or any(
-            o[0] == "call" and call_matches(o[2], r"core::cell::Cell::replace|<.* as core::convert::Into<.*>>::into|<.* as core::convert::From<.*>>::from") for o in origins)
-        is_ok_agg = any(o[0] == "agg" and o[2].get("variant") == "Ok" for o in origins)
-        ctx.ob("R5.2", "%s|%s|not-Ok" % (S.key, k), is_err and not is_ok_agg, where=ctx.where(S, i),
-               detail="stores an Err or puts back the value just read" if is_err and not is_ok_agg else "stores Ok into the shared result, erasing a recorded failure")
+    # nothing the scheduling passes store erases a recorded failure: each store is a failure or puts back what was just read
+    for k, i in common.ordinal_keys([("Cell::set", i) for i in SR.ops(S, "set")]):
+        what = SR.stores(S, i)
+        ctx.ob("R5.2", "%s|%s|not-Ok" % (S.key, k), what in ("fail", "putback"), where=ctx.where(S, i),
+               detail="stores a failure or puts back the value just read" if what in ("fail", "putback") else "stores a success (or an unknown value) into the shared result, erasing a recorded failure")
 
     # ---- R5.3
     R = anchors.record_new_state(prog)
     rba = BA.of(R)
-    rv_param = 8  # 8th argument `rv` (args are _1.._8); resolved by type below
     ne_sw = [(sw, ne_t, eq_t, x) for (sw, ne_t, eq_t, x) in common.cmp_const_switches(R, 0)]
     fails = rba.calls(r"state::File::set_failed")
     saves = rba.calls(r"state::File::save")
@@ -216,29 +224,41 @@ def run(ctx):
     waits = [(p, y, r, c) for (p, y, r, c) in ba.awaits() if polls_stream(op_local(S.blocks[p]["term"]["args"][0]))]
     ctx.floor("R5.5", "awaits in the scheduling passes that poll the job-future stream", len(waits), 2)
     starts = ba.calls(re.escape(start_key))
-    errtests = set()
-    for i in ba.calls(r"core::result::Result::is_err"):
-        errtests.add(i)
-    # the stop-or-continue decisions: a test of `errored` (a switch on the value of Result::is_err) combined with a
-    # test of env.keep_going (read in place or earlier, e.g. hoisted into a local captured by the passes); the head of
-    # a decision is whichever of the two switches comes first
-    err_sw = ba.switches_on_call(r"core::result::Result::is_err")
-    kg = keep_going_switches(prog, S)
+    # An *error test* observes whether the shared result currently holds a failure: a variant test (is_err / is_ok /
+    # is_some / is_none) applied to what a read of the cell (replace / take) just yielded. errored[bb] = the outcome
+    # of the test call in block bb that means "a failure is recorded".
+    errored = SR.variant_tests(S)
+    errtests = set(errored)
+    # The stop-or-continue decision: a branch edge that is taken only when (a failure is recorded) and (env.keep_going is
+    # false) - whatever the order of the two tests, whether they are two nested `if`s, one `if a && !b`, a bool
+    # computed first (`let stop = ..`), or a `fn must_stop(&self) -> bool` of a scheduler struct spliced in place
+    # (common.BoolFacts). The *head* of a decision is the first switch its outcome rests on.
+    bf = common.BoolFacts(S)
+    is_kg = keep_going_reads(prog, S)
     decisions = []
-    for (sw, t_t, f_t) in kg:
-        under = [e for e in err_sw if ba.edge_dominates((e[0], e[1]), sw)]        # errored && !keep_going
-        over = [e for e in err_sw if ba.edge_dominates((sw, f_t), e[0])]           # !keep_going && errored
-        if under:
-            decisions.append((under[-1][0], sw, f_t))
-        elif over:
-            decisions.append((sw, sw, over[0][1]))
-        else:
-            decisions.append((None, sw, f_t))
-    heads = frozenset(h for (h, _, _) in decisions if h is not None)
+    for sw in bf.switches():
+        for tg in bf.targets(sw):
+            f = bf.edge_facts(sw, tg) if tg is not None else None
+            if not f:
+                continue
+            e_at = [a for a, (pol, pr) in f.items() if a[0] == "call" and a[1] in errored and errored[a[1]] == pol]
+            k_at = [a for a, (pol, pr) in f.items() if a[0] == "place" and pol is False and is_kg(a[1], a[2])]
+            if not e_at or not k_at:
+                continue
+            pre = bf.block_facts(sw)
+            if any(a in pre for a in e_at) and any(a in pre for a in k_at):
+                continue            # already decided before this switch: not the deciding edge
+            prov = set([sw])
+            for a in e_at + k_at:
+                prov |= f[a][1]
+            heads_ = [h for h in prov if not any(h2 != h and ba.dominates(h2, h) for h2 in prov)]
+            decisions.append((tuple(sorted(heads_)), sw, tg))
+    decisions.sort(key=lambda d: (d[1], d[2]))
+    heads = frozenset(h for (hs, _, _) in decisions for h in hs)
     for k, (pbb, y, ready, c) in common.ordinal_keys([("wait_for", x) for x in waits]):
         p = ba.path([ready], starts, avoid=frozenset(errtests), incl=True) if ready is not None else [0]
-        ctx.ob("R5.5", "%s|%s|error-test-before-start" % (S.key, k), p is None, where=ctx.where(S, pbb),
-               detail="every path from this wait to a job start re-reads the shared result" if p is None else "a job can be started after this wait without looking at the shared result",
+        ctx.ob("R5.5", "%s|%s|error-test-before-start" % (S.key, k), p is None and bool(errtests), where=ctx.where(S, pbb),
+               detail="every path from this wait to a job start re-reads the shared result" if p is None and errtests else "a job can be started after this wait without looking at the shared result",
                witness={"path": p[:15] if p else None})
         # (replaces the former floor of two keep_going tests: what is necessary is not their number but that each
         # wait is followed by one before anything more is started)
@@ -247,13 +267,12 @@ def run(ctx):
                detail="every path from this wait to a job start passes the (errored and not keep_going) decision" if p is None and heads else
                "after this wait jobs are started without the (errored and not keep_going) decision: a failure no longer stops the run without --keep-going",
                witness={"path": p[:15] if p else None})
-    ctx.floor("R5.5", "tests of env.keep_going in the scheduler", len(kg), 1)
-    for k, (head, sw, stop_t) in common.ordinal_keys([("keep_going", x) for x in decisions]):
+    ctx.floor("R5.5", "stop-or-continue decisions (failure recorded and not env.keep_going) in the scheduler", len(decisions), 1)
+    for k, (hs, sw, stop_t) in common.ordinal_keys([("keep_going", x) for x in decisions]):
         # the stop edge (errored and keep_going == false): no start reachable before another error test
         p = ba.path([stop_t], starts, avoid=frozenset(errtests), incl=True)
-        dom_err = head is not None and any(ba.dominates(e, sw) or ba.dominates(sw, e) for e in errtests)
-        ctx.ob("R5.5", "%s|%s|stop-side-starts-nothing" % (S.key, k), p is None and dom_err, where=ctx.where(S, sw),
-               detail="errored and not keep_going: no further job start without a new error test" if p is None and dom_err else "jobs are started after a failure without --keep-going",
+        ctx.ob("R5.5", "%s|%s|stop-side-starts-nothing" % (S.key, k), p is None, where=ctx.where(S, sw),
+               detail="errored and not keep_going: no further job start without a new error test" if p is None else "jobs are started after a failure without --keep-going",
                witness={"path": p[:15] if p else None})
 
     # ---- R5.6
@@ -300,16 +319,15 @@ def failed_first(ctx, rid):
            detail="failed_runid.is_some() returns Dirty before stamps and dependencies are inspected" if found and okk else "a recorded failure does not force Dirty first")
 
 
-def keep_going_switches(prog, S):
-    """[(switch_bb, true_target, false_target)] bool switches of S on the value of `env.keep_going`: the switch
-    operand is a direct copy of a place ending in that field, read in S itself or, when the read was hoisted out of
-    the passes, in the enclosing body that constructs S and captures the local."""
+def keep_going_reads(prog, S):
+    """Predicate (bb, stmt_idx) -> bool: does that statement of S read the value of `env.keep_going`? The place read
+    is a direct copy of a place ending in that field, read in S itself or, when the read was hoisted out of the
+    passes, in the enclosing body that constructs S and captures the local."""
     FIELD = "env::Env.keep_going"
-    ba = BA.of(S)
     parent = prog.bodies.get(strip_generics(S.parent or "")) if S.parent else None
     cap = common.captured_from(parent, S.key) if parent is not None else {}
 
-    def is_kg(place):
+    def is_kg_place(place):
         for (root, fields) in common.operand_origin_paths(S, {"copy": place}):
             if fields[-1:] == (FIELD,):
                 return True
@@ -318,15 +336,117 @@ def keep_going_switches(prog, S):
                     if any(f2[-1:] == (FIELD,) for (_, f2) in common.origin_paths(parent, l)):
                         return True
         return False
-    out = []
-    for i in sorted(ba.live):
-        bs = ba.bool_switch(i)
-        if not bs:
-            continue
-        t_t, f_t, (kind, info) = bs
-        if kind == "place" and is_kg(info):
-            out.append((i, t_t, f_t))
+
+    def is_kg(bb, idx):
+        st = S.blocks[bb]["stmts"][idx]
+        if st["s"] != "assign" or st["rv"]["k"] != "use":
+            return False
+        pl = op_place(st["rv"]["op"])
+        return pl is not None and is_kg_place(pl)
+    return is_kg
+
+
+def _generic_args(ty):
+    """Top-level generic arguments of `Path<A, B<..>, C>` -> ['A', 'B<..>', 'C'] ([] if none)."""
+    i = ty.find("<")
+    if i < 0 or not ty.endswith(">"):
+        return []
+    out, depth, cur = [], 0, ""
+    for ch in ty[i + 1:-1]:
+        if ch in "<([":
+            depth += 1
+        elif ch in ">)]":
+            depth -= 1
+        if ch == "," and depth == 0:
+            out.append(cur.strip())
+            cur = ""
+        else:
+            cur += ch
+    if cur.strip():
+        out.append(cur.strip())
     return out
+
+
+class SharedResult:
+    """The shared failure cell of the scheduler (see R5.2), over a set of bodies: its content type, which variant of it
+    means `a failure is recorded`, the operations on it, what a store stores, where its content is tested."""
+    ERR = "error::RedoError"
+    VARIANT_TESTS = {"core::result::Result": {"is_err": "Err", "is_ok": "Ok"}, "core::option::Option": {"is_some": "Some", "is_none": "None"}}
+
+    def __init__(self, bodies):
+        self.elems = set()
+        for b in bodies:
+            for i in BA.of(b).calls(r"core::cell::Cell::(set|replace|take)"):
+                e = self._elem(b.blocks[i]["term"])
+                if e is not None and self.ERR in e:
+                    self.elems.add(e)
+        self.elem = next(iter(self.elems)) if len(self.elems) == 1 else None
+        self.adt = self.fail = self.success = None
+        if self.elem is not None:
+            a = _generic_args(self.elem)
+            if self.elem.startswith("core::result::Result<") and len(a) == 2 and self.ERR in a[1] and self.ERR not in a[0]:
+                self.adt, self.fail, self.success = "core::result::Result", "Err", "Ok"
+            elif self.elem.startswith("core::option::Option<") and len(a) == 1 and self.ERR in a[0]:
+                self.adt, self.fail, self.success = "core::option::Option", "Some", "None"
+
+    @staticmethod
+    def _elem(t):
+        m = re.fullmatch(r"&(?:mut )?core::cell::Cell<(.*)>", (t.get("arg_tys") or [""])[0])
+        return m.group(1) if m else None
+
+    def known(self):
+        return self.fail is not None
+
+    def ops(self, body, kinds="set|replace|take"):
+        if self.elem is None:
+            return []
+        return [i for i in BA.of(body).calls(r"core::cell::Cell::(%s)" % kinds) if self._elem(body.blocks[i]["term"]) == self.elem]
+
+    def stores(self, body, i):
+        """What the store at block i puts into the cell: 'fail' (every origin of the stored value is a failure-variant
+        aggregate), 'putback' (every origin is a read of the cell itself: `let r = c.replace(..); ..; c.set(r)`),
+        'success' (some origin is the success variant) or 'unknown'."""
+        if not self.known():
+            return "unknown"
+        t = body.blocks[i]["term"]
+        l = op_local(t["args"][1]) if len(t["args"]) > 1 else None
+        if l is None or op_place(t["args"][1])["p"]:
+            return "unknown"
+        reads = set(self.ops(body, "replace|take"))
+        kinds = set()
+        for kind, bb, info in common.value_origins(body, l):
+            if kind == "agg" and info.get("adt") == self.adt and info.get("variant") == self.fail:
+                kinds.add("fail")
+            elif kind == "agg" and info.get("adt") == self.adt and info.get("variant") == self.success:
+                kinds.add("success")
+            elif kind == "call" and bb in reads:
+                kinds.add("putback")
+            else:
+                kinds.add("unknown")
+        if kinds == {"fail"}:
+            return "fail"
+        if kinds == {"putback"}:
+            return "putback"
+        return "success" if "success" in kinds else "unknown"
+
+    def variant_tests(self, body):
+        """{call block: outcome meaning `failure recorded`} for the variant tests (is_err / is_ok / is_some / is_none)
+        applied to a value that a read of the cell yielded (direct aliases only)."""
+        if not self.known():
+            return {}
+        ba = BA.of(body)
+        reads = self.ops(body, "replace|take")
+        if not reads:
+            return {}
+        rt = taint(body, seeds={body.blocks[i]["term"]["dest"]["l"] for i in reads}, mode="direct")
+        ok = common.in_set(body, rt)
+        out = {}
+        for name, var in self.VARIANT_TESTS[self.adt].items():
+            for i in ba.calls(re.escape(self.adt) + "::" + name):
+                a = body.blocks[i]["term"]["args"][0]
+                if ok(op_local(a)):
+                    out[i] = (var == self.fail)
+        return out
 
 
 def callback_result_switches(J, cb):
@@ -352,6 +472,9 @@ def callback_result_switches(J, cb):
     return out
 
 
+POSSIBLY_OK = re.compile(r"core::option::Option::(ok_or|ok_or_else)|core::result::Result::(or|or_else)")
+
+
 def callback_error_rule(ctx, rid):
     prog = ctx.prog
     J = anchors.job_start(prog)
@@ -370,6 +493,10 @@ def callback_error_rule(ctx, rid):
     ok_rets = [i for i in common.blocks_with_agg(J, r"core::result::Result", "Ok")
                if any(s_["s"] == "assign" and s_["rv"]["k"] == "agg" and s_["rv"].get("adt") == "core::result::Result" and s_["rv"].get("variant") == "Ok"
                       and s_["place"]["l"] in into_ret for s_ in J.blocks[i]["stmts"])]
+    # ... or hands back the result of a std combinator that yields Ok for some inputs (`opt.map(ready).ok_or(e)`: Ok iff the
+    # error carried an exit status) - not `?` / from_residual, which only ever re-wraps the error
+    ok_rets += [i for i in jba.all_calls() if call_matches(J.blocks[i]["term"], POSSIBLY_OK)
+                and not J.blocks[i]["term"]["dest"]["p"] and J.blocks[i]["term"]["dest"]["l"] in into_ret]
     cut = frozenset((sw, ok_t) for (sw, ok_t, err_t) in sws if ok_t is not None and ok_t != err_t)
     ok = False
     for (sw, ok_t, err_t) in sws:
